@@ -29,4 +29,6 @@ def run(rep, fb, tier):
     _l2.rule_form_array_simplify(rep, fb)
     from ..rules import pyrules as _pr4
     _pr4.rule_py_defassign(rep)
+    from ..rules import pybind as _pb2
+    _pb2.rule_py_layout_attrs(rep)
     rep.units = fb.units + ["src/awkward/partition.py, _util.py, operations/structure.py (ast)"]
